@@ -18,7 +18,7 @@ grown by delta (radius -/+ delta, both caps moved by delta), delta = K eps (|p -
 + r + h).  This is 64 eps (r + h)-like for rays that cross the surface transversally,
 becomes the sqrt(eps) (r + h) behaviour for tangent rays by itself and is wide
 (= undecided) exactly where the definition is discontinuous (ray lying in a cap plane
-or along the lateral surface).  For the near-parallel class (direction within 1e-8 rad
+or along the lateral surface).  For the near-parallel class (direction within 1e-7 rad
 of the axis) the radius is perturbed by sqrt(eps) (|p - base| + r + h) instead, the
 bound DESIGN C18 gives for that class: such rays are decided unless they run within
 that distance of the lateral surface.
@@ -100,7 +100,11 @@ def _interval(qu, qv, qz, du, dv, dz, r, h, grow, grow_r=None):
     hi = np.full(shape, _INF, dtype=LD)
     with np.errstate(all='ignore'):
         # lateral surface: A t^2 + 2 B t + C <= 0
-        disc = B * B - A * C
+        # discriminant B^2 - A C = A rr^2 - (q_perp x n_perp)^2, in the form that does not
+        # cancel for start points far from the solid
+        cr = np.abs(np.broadcast_to(qu * dv - qv * du, shape))
+        sA = np.sqrt(A)
+        disc = (rr * sA - cr) * (rr * sA + cr)
         par = A == 0
         miss = np.where(par, C > 0, disc < 0)
         sq = np.sqrt(np.where(disc > 0, disc, LD(0)))
@@ -132,7 +136,7 @@ def _length(lo, hi, nn):
     return d * nn
 
 
-def path(fr, base, r, h, p, n, k_eps=64.0, grow=None, np_tilt=1e-8):
+def path(fr, base, r, h, p, n, k_eps=64.0, grow=None, np_tilt=1e-7):
     """Path length of rays {p + t n, t >= 0} through the solid, with its enclosure.
 
     p, n: arrays (..., 3) broadcastable against each other.  Returns dict with
